@@ -136,6 +136,9 @@ pub struct Profile {
     pub tmp: String,
     /// percentage of updates that are immediately followed by a commit
     pub commit_after_update: usize,
+    /// configuration knobs that must not change the logical script (C18)
+    pub cap_shift: usize,
+    pub perm_salt: u64,
 }
 
 pub fn profile(name: &str) -> Profile {
@@ -154,6 +157,8 @@ pub fn profile(name: &str) -> Profile {
         backend: "mem".to_string(),
         tmp: std::env::temp_dir().to_string_lossy().to_string(),
         commit_after_update: 40,
+        cap_shift: 0,
+        perm_salt: 0,
     };
     match name {
         "general" => {}
@@ -250,6 +255,16 @@ pub struct World {
     pub step: usize,
 }
 
+impl Profile {
+    /// draws a pair of cache capacities; `cap_shift` rotates the choice without touching the PRNG stream
+    pub fn pick_caps(&self, r: &mut Rng) -> (u32, u32) {
+        let n = self.caps.len();
+        let a = r.below(n);
+        let b = r.below(n);
+        (self.caps[(a + self.cap_shift) % n], self.caps[(b + 2 * self.cap_shift) % n])
+    }
+}
+
 pub fn set_caps(c: (u32, u32)) {
     std::env::set_var("MELDA_ARRAYDESCRIPTORS_CACHE_CAP", c.0.to_string());
     std::env::set_var("MELDA_DATA_CACHE_CAP", c.1.to_string());
@@ -324,10 +339,12 @@ impl World {
                     }
                 }
             };
-            if prof.perm_listing && r.chance(50) {
-                *st.perm_seed.lock().unwrap() = Some(r.next());
+            let want_perm = r.chance(50);
+            let pseed = r.next();
+            if prof.perm_listing && (want_perm || prof.perm_salt != 0) {
+                *st.perm_seed.lock().unwrap() = Some(pseed ^ prof.perm_salt);
             }
-            let caps = (*r.pick(&prof.caps), *r.pick(&prof.caps));
+            let caps = prof.pick_caps(&mut r);
             let m = match open_with(&ad, caps) {
                 Outcome::Ok(m) => m,
                 o => {
@@ -901,7 +918,7 @@ impl World {
                 }
                 // C03: reopen on the same storage
                 if !self.reps[i].behind {
-                    let caps = (*self.r.pick(&self.prof.caps), *self.r.pick(&self.prof.caps));
+                    let caps = self.prof.clone().pick_caps(&mut self.r);
                     match open_with(&self.reps[i].ad, caps) {
                         Outcome::Ok(m2) => {
                             let o2 = observe(&m2);
@@ -1346,7 +1363,7 @@ impl World {
     fn do_reopen(&mut self, i: usize) {
         let behind = self.reps[i].behind;
         let exp = self.reps[i].clean.clone();
-        let caps = (*self.r.pick(&self.prof.caps), *self.r.pick(&self.prof.caps));
+        let caps = self.prof.clone().pick_caps(&mut self.r);
         self.t(format!("r{}.reopen caps={:?}", i, caps));
         if let Some(p) = self.reps[i].path.clone() {
             if crate::backends::persistent(&self.prof.backend) {
